@@ -9,13 +9,13 @@ OHV; ocs; mgr; meh; l1; l2; family; opv; pafd; pau; mogs), `Decn.subset` = the s
 All theorems hold over every linearly ordered field and for every square-root function unless stated.
 -/
 import Mathlib.Analysis.SpecialFunctions.Sqrt
-import PybropsModel.Lemmas.SelectionFactory
+import PybropsModel.Lemmas.SelectionRelabel
 set_option autoImplicit false
 set_option linter.unusedSectionVars false
 set_option linter.unusedSimpArgs false
 
 namespace C05
-open Selection Finset
+open Selection Selection.Spec Finset
 
 section encodings
 variable {α : Type} [Field α] [LinearOrder α] [IsStrictOrderedRing α] [HasSqrt α]
@@ -288,6 +288,131 @@ theorem pau_tmajor_prerepair_counterexample :
 
 end definitions
 
+/-! ### kinship-factor criteria: relabelling of the candidates, L2 as per-slice MGR -/
+section kinship
+variable {α : Type} [Field α] [LinearOrder α] [IsStrictOrderedRing α] [HasSqrt α]
+
+/-- **Taxa relabelling, subset classes** (OCS / MGR / MEH / L2): re-ordering the columns of the kinship
+    factor(s) (and the rows of the breeding values) by `π` and listing the subset by the new positions gives
+    the latent vector of the original problem at the original indices. -/
+theorem kinship_relabel_subset (eps : α) (π : List Nat) (cr : Crit α) (hv : KinshipValid π cr) (S : List Nat)
+    (hS : ∀ i ∈ S, i < π.length) (hne : S ≠ []) :
+    latent eps (relabelCols π cr) (.subset S) = latent eps cr (.subset (S.map fun i => π.getD i 0)) :=
+  latent_relabel_subset eps π cr hv S hS hne
+
+/-- **Taxa relabelling, real / integer / binary classes**: for a permutation `π` of the candidates, the
+    relabelled problem at the relabelled decision vector `x[π]` has the latent vector of the original. -/
+theorem kinship_relabel_vec (eps : α) (π : List Nat) (cr : Crit α) (x : List α)
+    (hπ : π.Perm (List.range x.length)) (hv : KinshipValidVec x.length cr) :
+    latent eps (relabelCols π cr) (.vec (Np.take π x)) = latent eps cr (.vec x) :=
+  latent_relabel_vec eps π cr x hπ hv
+
+example : ([2, 0, 1] : List Nat).Perm (List.range ([(1:ℚ), 0, 2] : List ℚ).length) ∧
+    KinshipValidVec (α := ℚ) 3 (.mgr [[1, 2, 3], [0, 4, 5], [0, 0, 6]]) ∧
+    KinshipValid (α := ℚ) [2, 0, 1] (.mgr [[1, 2, 3], [0, 4, 5], [0, 0, 6]]) := by
+  refine ⟨by decide, ?_, ?_⟩
+  · intro r hr; simp at hr; rcases hr with rfl | rfl | rfl <;> rfl
+  · intro r hr p hp; simp at hr hp
+    rcases hr with rfl | rfl | rfl <;> rcases hp with rfl | rfl | rfl <;> decide
+
+/-- **L2 = per-slice MGR**, subset classes: entry `t` of the L2 latent vector is the mean genomic
+    relationship computed from slice `t` -/
+theorem l2_is_slicewise_mgr_subset (eps : α) (Cs : List (List (List α))) (S : List Nat) :
+    latent eps (.l2 Cs) (.subset S)
+      = some (Cs.map fun Ct => ((latent eps (.mgr Ct) (.subset S)).getD []).headD 0) :=
+  l2_subset_slices eps Cs S
+
+/- FULL STATEMENT (false of the as-is model, see `l2_mgr_guard_counterexample`):
+   theorem l2_is_slicewise_mgr_vec : ∀ x, latent eps (.l2 Cs) (.vec x) = some (Cs.map fun Ct => … mgr Ct … x)
+   (the L2 classes compute `1/x.sum()` unguarded, the MGR classes replace a total below 1e-10 by 1). -/
+theorem l2_is_slicewise_mgr_vec_partial (eps : α) (Cs : List (List (List α))) (x : List α)
+    (hg : eps ≤ |Np.sum x|) :
+    latent eps (.l2 Cs) (.vec x)
+      = some (Cs.map fun Ct => ((latent eps (.mgr Ct) (.vec x)).getD []).headD 0) :=
+  l2_vec_slices eps Cs x hg
+
+/-- inside the guard the two families normalise differently: for x = (1e-11, 0) the MGR classes use x as it
+    is, the L2 classes use x/Σx = (1, 0) -/
+theorem l2_mgr_guard_counterexample :
+    contrib true (mkRat 1 (10 ^ 10)) [mkRat 1 (10 ^ 11), 0] = [mkRat 1 (10 ^ 11), 0] ∧
+    contrib false (mkRat 1 (10 ^ 10)) [mkRat 1 (10 ^ 11), 0] = [(1 : Rat), 0] := by
+  decide +kernel
+
+end kinship
+
+/-! ### genotype builder -/
+section genotypeBuilder
+variable {α : Type} [Field α] [LinearOrder α] [IsStrictOrderedRing α] [HasSqrt α]
+
+/-- **Genotype builder with every selected founder counted** (`nbestfndr = len(x)`): the latent value is
+    `−(ploidy/k) · Σ_blocks Σ_{i∈S} (best phase value of i)` — the sort drops out. -/
+theorem gb_all_founders (eps : α) (H : List (List (List (List α)))) (S : List Nat) :
+    latent eps (.gb H S.length) (.subset S) = some
+      ((List.range (((H.headD []).headD []).headD []).length).map fun j =>
+        (-(((H.length : Nat) : α) / ((S.length : Nat) : α))) * rsum ((H.headD []).headD []).length (fun b =>
+          ssum S fun i => maxL (H.map fun Hp => ((Hp.getD i []).getD b []).getD j 0))) := by
+  simp only [latent]
+  rw [gbSubset_all]
+
+/-- **Genotype builder with one best founder = optimal population value**: the best of the members' best
+    phases is the maximum over all phases of all members. -/
+theorem gb_one_founder_is_opv (eps : α) (H : List (List (List (List α)))) (S : List Nat) (hH : H ≠ [])
+    (hS : S ≠ []) :
+    latent eps (.gb H 1) (.subset S) = latent eps (.opv H) (.subset S) := by
+  simp only [latent]
+  rw [gbSubset_one H S hH hS]
+
+example : ([[[[(1:ℚ)]]], [[[2]]]] : List (List (List (List ℚ)))) ≠ [] ∧ ([0] : List Nat) ≠ [] := by
+  constructor <;> simp
+
+end genotypeBuilder
+
+/-! ### the Spec oracle evaluated by the harness accepts every output of the model -/
+section spec
+variable {α : Type} [Field α] [LinearOrder α] [IsStrictOrderedRing α] [HasSqrt α]
+
+/-- **Spec soundness, vector classes.**  `Selection.Spec.definition` — what `c05.spec_latent` evaluates on
+    the implementation's outputs: zipped `Np.dot`, explicit `K = CᵀC` via `Np.transpose`, square roots in
+    squared form — accepts the model's latent vector of every decision vector of the right length outside
+    the guard, with any tolerance ≥ 0 (so in particular exactly), for every well-formed criterion with
+    vector classes and a lawful square root. -/
+theorem spec_sound_vec (eps rel abs_ : α) (h : 0 ≤ abs_) (hs : LawfulSqrt α) (cr : Crit α)
+    (hv : cr.hasVec = true) (hwf : cr.WellFormed) (x : List α) (hx : x.length = cr.ncand)
+    (hg : cr.guarded = true → eps ≤ |Np.sum x|) (supp : List Nat) (l : List α)
+    (hl : latent eps cr (.vec x) = some l) :
+    accepts rel abs_ (definition cr (x.map fun v => v / Np.sum x) supp) l = true := by
+  rw [vec_latent_normalised eps cr x hg] at hl
+  exact spec_core_sound rel abs_ h hs cr hv hwf _ (by simpa using hx) supp l hl
+
+/-- **Spec soundness, subset classes** (all criterion families except the genotype builder, whose
+    "nbest largest" is defined through a descending sort in the Spec and an ascending one in the code). -/
+theorem spec_sound_subset (eps rel abs_ : α) (h : 0 ≤ abs_) (hs : LawfulSqrt α) (cr : Crit α)
+    (hwf : cr.WellFormed) (hgb : ∀ H nb, cr ≠ .gb H nb) (S : List Nat) (hnd : S.Nodup) (hne : S ≠ [])
+    (hS : ∀ i ∈ S, i < cr.ncand) (l : List α) (hl : latent eps cr (.subset S) = some l) :
+    accepts rel abs_ (definition cr (unitShares cr.ncand S) S) l = true := by
+  by_cases hv : cr.hasVec = true
+  · rw [subset_eq_core eps cr hv S hnd hS] at hl
+    exact spec_core_sound rel abs_ h hs cr hv hwf _ (unitShares_length _ _) S l hl
+  · exact spec_subset_only_sound eps rel abs_ h cr hwf S hS hne l hl (by simpa using hv) hgb
+
+example : LawfulSqrt ℝ := fun q hq => ⟨Real.sqrt_nonneg q, Real.mul_self_sqrt hq⟩
+example : (Crit.ocs [[(2:ℚ), 1], [0, 3]] [[1, 2], [3, 4]]).WellFormed ∧
+    (Crit.pau [[(2:ℚ), 0], [2, 0]] 2 [[1], [10]] [[1], [0]]).WellFormed := by
+  refine ⟨⟨?_, rfl⟩, by decide, ?_⟩
+  · intro r hr; simp at hr; rcases hr with rfl | rfl <;> rfl
+  · intro m j hm hj
+    have hj0 : j = 0 := by simpa [ncols] using hj
+    subst hj0
+    simp only [List.length_cons, List.length_nil] at hm
+    interval_cases m <;> norm_num [ent]
+
+/-- the Spec's zipped dot product is the model's indexed sum -/
+theorem dot_eq_range_sum (a b : List α) (hab : a.length ≤ b.length) :
+    Np.dot a b = ∑ i ∈ range a.length, vget a i * vget b i :=
+  np_dot_eq a b hab
+
+end spec
+
 /-! ### evalfn -/
 section evalfn
 variable {α : Type} [Field α] [LinearOrder α] [IsStrictOrderedRing α]
@@ -303,6 +428,12 @@ theorem evalfn_obj_entry (ow iw ew : List α) (tO tI tE : Trans α) (x l : List 
     (h1 : i < ow.length) (h2 : i < (tO.apply x l).length) :
     (evalfn ow iw ew tO tI tE x l).1[i]? = some (ow[i] * (tO.apply x l)[i]) := by
   simp [evalfn, wmul, List.getElem?_zipWith, h1, h2]
+
+/-- the constraint vectors are computed from the latent vector itself: they do not depend on the objective
+    weights or the objective transformation (no role sees another role's weighted output), and vice versa -/
+theorem evalfn_roles_independent (ow ow' iw ew : List α) (tO tO' tI tE : Trans α) (x l : List α) :
+    (evalfn ow iw ew tO tI tE x l).2 = (evalfn ow' iw ew tO' tI tE x l).2 ∧
+    (evalfn ow iw ew tO tI tE x l).1 = (evalfn ow [] [] tO .empty .empty x l).1 := ⟨rfl, rfl⟩
 
 /-- the built-in transformations: identity returns the latent vector, `trans_sum` its total,
     `trans_dot` the weighted total, `trans_empty` nothing -/
